@@ -409,8 +409,8 @@ def _check(ctx, rng, R, C, CU, tmp):
 
     # ------------------------------------------------------------------ (a1) read_config
     cases = []
-    n_struct = ctx.n(1200, 12000)
-    n_raw = ctx.n(1200, 20000)
+    n_struct = ctx.n(1200, 8000)
+    n_raw = ctx.n(1200, 12000)
     files = [gen_config_file(rng, props) for _ in range(n_struct)]
     files += [gen_config_file(rng, props, big=True) for _ in range(ctx.n(1, 6))]
     files += [(gen_config_raw(rng), None) for _ in range(n_raw)]
@@ -436,7 +436,7 @@ def _check(ctx, rng, R, C, CU, tmp):
 
     # ------------------------------------------------------------------ (a2) parse_currency_data
     cases = []
-    texts = [gen_currency_text(rng) for _ in range(ctx.n(1500, 20000))]
+    texts = [gen_currency_text(rng) for _ in range(ctx.n(1500, 12000))]
     texts += ["usd,d," + t for t in RATE_TXT + RATE_BAD] + ["", "\n", "a,b", "a,b,1\n\n", CU.DEFAULT_CURRENCY_DATA, CU.DEFAULT_CURRENCY_DATA + "\n"]
     for t in texts:
         try:
@@ -532,7 +532,7 @@ def _check(ctx, rng, R, C, CU, tmp):
     order = list(triples)
     if not ctx.quick():
         rng.shuffle(order)
-    budget = 480.0
+    budget = 400.0
     t_start = time.time()
     jobs, idx = [], 0
     first = True
